@@ -51,13 +51,18 @@ class Summariser:
         self.sel_param = sel_param
         self.member = member
         self.env = {str_param: SymStr(str_param)}
+        self.cenv = {}        # locals holding constants (rows of a table)
         self.localdefs = {}
         self.rejects_newline = False
 
     # -- expression evaluation -------------------------------------------
     def cev(self, e):
-        return const_eval(self.repo, self.mod, e, self.cls,
-                          {self.sel_param: self.member})
+        return const_eval(self.repo, self.mod, e, self.cls, self._consts())
+
+    def _consts(self):
+        d = dict(self.cenv)
+        d[self.sel_param] = self.member
+        return d
 
     def _repl_alters(self, repl, grp):
         """Does the replacement differ from the matched text?"""
@@ -122,9 +127,16 @@ class Summariser:
                                 .format(self.f.fq, e.id))
         if isinstance(e, ast.Call) and isinstance(e.func, ast.Attribute):
             meth = e.func.attr
-            if meth == 'replace' and len(e.args) == 2:
+            pair = None
+            if meth == 'replace' and len(e.args) == 1 and isinstance(
+                    e.args[0], ast.Starred):
+                pair = self.cev(e.args[0].value)
+                if not (isinstance(pair, (tuple, list)) and len(pair) == 2):
+                    pair = None
+            if meth == 'replace' and (len(e.args) == 2 or pair):
                 base = self.sym(e.func.value)
-                old, new = self.cev(e.args[0]), self.cev(e.args[1])
+                old, new = pair if pair else (self.cev(e.args[0]),
+                                              self.cev(e.args[1]))
                 if not isinstance(old, str) or not isinstance(new, str):
                     raise AnalysisError('{}: non-constant replace {}'.format(
                         self.f.fq, unparse(e)))
@@ -201,11 +213,40 @@ class Summariser:
             return ('raises', unparse(st))
         if isinstance(st, ast.Assign) and len(st.targets) == 1 and \
                 isinstance(st.targets[0], ast.Name):
-            self.env[st.targets[0].id] = self.sym(st.value)
+            try:
+                self.env[st.targets[0].id] = self.sym(st.value)
+                self.cenv.pop(st.targets[0].id, None)
+            except AnalysisError:
+                v = self.cev(st.value)
+                if v is UNKNOWN:
+                    raise
+                self.cenv[st.targets[0].id] = v
             return None
+        if isinstance(st, (ast.For,)) and not st.orelse:
+            # a loop over a constant table: unrolled row by row
+            rows = self.cev(st.iter)
+            names = [x.id for x in (st.target.elts if isinstance(
+                st.target, (ast.Tuple, ast.List)) else [st.target])
+                if isinstance(x, ast.Name)]
+            if isinstance(rows, (tuple, list)) and len(rows) <= 16 and names:
+                for row in rows:
+                    if isinstance(st.target, ast.Name):
+                        self.cenv[names[0]] = row
+                    elif isinstance(row, (tuple, list)) and len(row) == len(
+                            names):
+                        for k, v in zip(names, row):
+                            self.cenv[k] = v
+                    else:
+                        raise AnalysisError(
+                            '{}: table row does not match the loop target'
+                            .format(self.f.fq))
+                    r = self._block(st.body)
+                    if r is not None:
+                        return r
+                return None
         if isinstance(st, ast.If):
             t = fold_test(self.repo, self.mod, st.test, self.cls,
-                          {self.sel_param: self.member})
+                          self._consts())
             if t is None:
                 # a test on the input string (e.g. newline rejection) whose
                 # body only raises does not change the chain
